@@ -48,6 +48,7 @@ BigOp(f, v, lo, hi, body) == [k |-> "bs", f |-> f, v |-> v, lo |-> lo, hi |-> hi
 Let(v, val, body) == [k |-> "let", v |-> v, val |-> val, body |-> body]
 RV(v) == [k |-> "rv", v |-> v]
 
+TMemo(keys, body) == [k |-> "memo", keys |-> keys, body |-> body]       \* body depends on the position only through the index expressions `keys` (evaluation hint; transparent to Unroll)
 TIf(a, b, th, el) == [k |-> "if", a |-> a, b |-> b, t |-> th, e |-> el]          \* IF a < b THEN th ELSE el  (a, b index expressions)
 
 (* applications inside templates are built without folding (nothing is literal) *)
@@ -59,6 +60,7 @@ Unroll(t, ienv, renv) ==
   CASE t.k \in {"q", "s", "c"} -> t
     [] t.k = "sx" -> Sym(t.t, IEval(t.ix, ienv) + 1)
     [] t.k = "rv" -> renv[t.v]
+    [] t.k = "memo" -> Unroll(t.body, ienv, renv)
     [] t.k = "if" -> IF IEval(t.a, ienv) < IEval(t.b, ienv) THEN Unroll(t.t, ienv, renv) ELSE Unroll(t.e, ienv, renv)
     [] t.k = "let" -> Unroll(t.body, ienv, IF renv = <<>> THEN (t.v :> Unroll(t.val, ienv, renv)) ELSE (t.v :> Unroll(t.val, ienv, renv)) @@ renv)
     [] t.k = "bs" -> LET seq == [i \in 1..(t.hi - t.lo + 1) |-> Unroll(t.body, (t.v :> (t.lo + i - 1)) @@ ienv, renv)]
@@ -106,6 +108,15 @@ TAlong(op, dims, dim) ==
       o == IDiv(P, IL(inner))
       i == IMod(P, IL(inner))
   IN TStat(op, n, LAMBDA q : SymAt("a", IAdd(IAdd(IMul(o, IL(n * inner)), IMul(q, IL(inner))), i)))
+
+(* Softmax along dim (0-based): e^x over the sum of e^x of the element's fibre *)
+TSoftmax(dims, dim) ==
+  LET n == dims[dim + 1]
+      inner == Prod(SubSeq(dims, dim + 2, Len(dims)))
+      o == IDiv(P, IL(n * inner))
+      i == IMod(P, IL(inner))
+  IN TApp("div", <<TApp("exp", <<SymAt("a", P)>>),
+                   TMemo(<<o, i>>, BigOp("sum", "q", 0, n - 1, TApp("exp", <<SymAt("a", IAdd(IAdd(IMul(o, IL(n * inner)), IMul(IV("q"), IL(inner))), i))>>)))>>)
 
 (* [m, n] x [n, k] *)
 TMatMul(m, n, kk) ==
